@@ -10,11 +10,11 @@ def bed3 : Schema := {
   delim := 9, comment := 35, linesPerEntry := 1, lineOffsets := [], marker := 0, interiorComments := false }
 
 def bed6 : Schema := {
-  cols := [("chromosome", "id"), ("start", "int"), ("stop", "int"), ("name", "id"), ("strand", "strand"), ("score", "oint")],
+  cols := [("chromosome", "id"), ("start", "int"), ("stop", "int"), ("name", "id"), ("score", "oint"), ("strand", "strand")],
   delim := 9, comment := 35, linesPerEntry := 1, lineOffsets := [], marker := 0, interiorComments := false }
 
 def bed12 : Schema := {
-  cols := [("chromosome", "id"), ("start", "int"), ("stop", "int"), ("name", "id"), ("strand", "strand"), ("score", "oint"), ("thick_start", "int"), ("thick_end", "int"), ("item_rgb", "str"), ("block_count", "int"), ("block_sizes", "ilist"), ("block_starts", "ilist")],
+  cols := [("chromosome", "id"), ("start", "int"), ("stop", "int"), ("name", "id"), ("score", "oint"), ("strand", "strand"), ("thick_start", "int"), ("thick_end", "int"), ("item_rgb", "str"), ("block_count", "int"), ("block_sizes", "ilist"), ("block_starts", "ilist")],
   delim := 9, comment := 35, linesPerEntry := 1, lineOffsets := [], marker := 0, interiorComments := false }
 
 def bdg : Schema := {
@@ -22,7 +22,7 @@ def bdg : Schema := {
   delim := 9, comment := 35, linesPerEntry := 1, lineOffsets := [], marker := 0, interiorComments := false }
 
 def narrowpeak : Schema := {
-  cols := [("chromosome", "id"), ("start", "int"), ("stop", "int"), ("name", "id"), ("strand", "strand"), ("score", "oint"), ("signal_value", "float"), ("p_value", "float"), ("q_value", "float"), ("summit", "int")],
+  cols := [("chromosome", "id"), ("start", "int"), ("stop", "int"), ("name", "id"), ("score", "oint"), ("strand", "strand"), ("signal_value", "float"), ("p_value", "float"), ("q_value", "float"), ("summit", "int")],
   delim := 9, comment := 35, linesPerEntry := 1, lineOffsets := [], marker := 0, interiorComments := false }
 
 def sizes : Schema := {
